@@ -95,6 +95,7 @@ type Sess struct {
 	Alive     bool
 	usedInv   map[uint64]bool // invocation ids ever sent to this session
 	stalled   bool
+	dying     bool // one of several sessions being ended by the same kill request
 	Testament []Testament
 }
 
@@ -275,6 +276,9 @@ func (s *step) finish() {
 			}
 			if s.mute[p] && !o.Closed {
 				continue // already reported as "expected X, received: ..." for this puppet
+			}
+			if ss := s.m.Sess[p]; ss != nil && ss.dying && !o.Closed {
+				continue
 			}
 			if o.Msg == nil && !o.Closed {
 				if o.Frame == -2 { // rawsocket handshake reply
